@@ -1,4 +1,5 @@
 """C11 — make_trapezoid realises the requested area, amplitude and timing."""
+import json
 import math
 import warnings
 from fractions import Fraction
@@ -44,7 +45,8 @@ RULE = ('calls drawn from the seven supported argument sets (area; area+duration
         'area+flat_time+rise[/fall]; amplitude+duration; amplitude+flat_time; flat_area+flat_time) x ramps '
         '(none/rise/fall/symmetric/asymmetric, on and off raster) x sign x zero x random systems (max_grad in '
         'mT/m, Hz/m, rad/ms/mm; max_slew in T/m/s, mT/m/ms, Hz/m/s, rad/ms/mm/ms; raster 4/5/10/20 us) x optional '
-        'delay and max_grad/max_slew overrides, area regimes triangle / near the regime boundary / plateau; an invalid '
+        'delay and max_grad/max_slew overrides, systems built with the non-default Opts options (rise_time instead of / in '
+        'addition to max_slew, on and off the raster; other gamma incl. negative; other rf/adc/block rasters), area regimes triangle / near the regime boundary / plateau; an invalid '
         'stream (missing or conflicting arguments, too short durations, beyond amplitude or slew limits, zero or '
         'negative rise / fall / flat times and durations on every path, bad channel) where the exception class '
         'must equal the model\'s; a threshold stream '
@@ -102,7 +104,23 @@ def gen_system(rng):
     ms = {'T/m/s': s_T, 'mT/m/ms': s_T, 'Hz/m/s': float(round(s_T * GAMMA)),
           'rad/ms/mm/ms': round(s_T * GAMMA * 2 * math.pi / 1e9, 4)}[su]
     raster = rng.choice([4e-6, 5e-6, 10e-6, 20e-6, 10e-6])
-    return {'max_grad': mg, 'grad_unit': gu, 'max_slew': ms, 'slew_unit': su, 'raster': raster}
+    sysd = {'max_grad': mg, 'grad_unit': gu, 'max_slew': ms, 'slew_unit': su, 'raster': raster}
+    # non-default Opts options: slew given as the time to reach max_grad (rise_time, on and off the raster),
+    # another nucleus / sign of gamma (changes every unit conversion), other rasters of the Opts object
+    u = rng.random()
+    if u < 0.25:
+        t_rise = g_mT / s_T * 1e-3                      # s: mT/m over T/m/s
+        sysd['rise_time'] = rng.choice([tm(round(t_rise / raster) * raster) or raster,
+                                        round(t_rise, 7), 125e-6, 1.234e-4, round(t_rise * 1.013, 8)])
+        if rng.random() < 0.5:
+            sysd['max_slew'] = None                     # rise_time alone defines the slew limit
+    if rng.random() < 0.2:
+        sysd['gamma'] = rng.choice([10.7084e6, 40.078e6, 17.235e6, -42.576e6, 42.576e6 * 1.0001])
+    if rng.random() < 0.15:
+        sysd['other'] = {'rf_raster_time': rng.choice([1e-6, 2e-6, 5e-7]),
+                         'block_duration_raster': rng.choice([10e-6, 20e-6, 4e-6]),
+                         'adc_raster_time': rng.choice([1e-7, 2e-7])}
+    return sysd
 
 
 _OPTS_CACHE = {}
@@ -110,11 +128,20 @@ _OPTS_CACHE = {}
 
 def make_opts(s):
     import pypulseq as pp
-    key = (s['max_grad'], s['grad_unit'], s['max_slew'], s['slew_unit'], s['raster'])
+    other = s.get('other') or {}
+    key = (s['max_grad'], s['grad_unit'], s['max_slew'], s['slew_unit'], s['raster'], s.get('rise_time'), s.get('gamma'),
+           tuple(sorted(other.items())))
     o = _OPTS_CACHE.get(key)
     if o is None:
-        o = pp.Opts(max_grad=s['max_grad'], grad_unit=s['grad_unit'], max_slew=s['max_slew'], slew_unit=s['slew_unit'],
-                    grad_raster_time=s['raster'])
+        kw = dict(max_grad=s['max_grad'], grad_unit=s['grad_unit'], grad_raster_time=s['raster'])
+        if s['max_slew'] is not None:
+            kw.update(max_slew=s['max_slew'], slew_unit=s['slew_unit'])
+        if s.get('rise_time') is not None:
+            kw['rise_time'] = s['rise_time']
+        if s.get('gamma') is not None:
+            kw['gamma'] = s['gamma']
+        kw.update(other)
+        o = pp.Opts(**kw)
         if len(_OPTS_CACHE) > 5000:
             _OPTS_CACHE.clear()
         _OPTS_CACHE[key] = o
@@ -292,9 +319,12 @@ def sibling(rng, case):
             n = math.ceil(cont_optimum(c['args']['area'], S, G) / R + 2 + 1e-6) + rng.choice([1, 2, 3, 10, 100])
             c['args']['duration'] = max(c['args']['duration'], tm(n * R))
     elif how == 'limits':
-        c['sys']['max_slew'] = c['sys']['max_slew'] * rng.choice([2, 4])
-        if c['sys']['slew_unit'] == 'Hz/m/s':
-            c['sys']['max_slew'] = float(round(c['sys']['max_slew']))
+        if c['sys'].get('rise_time') is not None:
+            c['sys']['rise_time'] = c['sys']['rise_time'] / rng.choice([2, 4])      # faster system
+        else:
+            c['sys']['max_slew'] = c['sys']['max_slew'] * rng.choice([2, 4])
+            if c['sys']['slew_unit'] == 'Hz/m/s':
+                c['sys']['max_slew'] = float(round(c['sys']['max_slew']))
     c['sibling'] = how
     return c
 
@@ -679,6 +709,16 @@ def corpus():
     c('x.override_grad', area=100.0, max_grad=1e5)
     c('x.override_both', area=-100.0, max_grad=2e6, max_slew=2e10)
     c('x.delay', area=10.0, delay=1.5e-4)
+    # a system described by max_grad and an OFF-RASTER rise_time (slew = max_grad / rise_time): ramps chosen by
+    # the function must still be raster multiples on every argument set
+    rt = {'max_grad': 32, 'grad_unit': 'mT/m', 'max_slew': None, 'slew_unit': 'Hz/m/s', 'raster': 10e-6, 'rise_time': 125e-6}
+    c('o.rise_time.fa', sysd=rt, flat_area=250.0, flat_time=2e-3)
+    c('o.rise_time.fa_neg', sysd=rt, flat_area=-1000.0, flat_time=1.28e-3)
+    c('o.rise_time.amp_flat', sysd=rt, amplitude=3e5, flat_time=1e-3)
+    c('o.rise_time.amp_dur', sysd=rt, amplitude=-3e5, duration=2e-3)
+    c('o.rise_time.area', sysd=rt, area=500.0)
+    c('o.rise_time.area_dur', sysd=rt, area=500.0, duration=5e-3)
+    c('o.rise_time.at_limit', sysd=rt, amplitude=32 * 42576.0, flat_time=1e-3)
     # round-2 findings (a) and (c): exactly triangular request with asymmetric ramps whose binary64 sum rounds
     # up (rejected today, accepted with the proposed eps-tolerant test); over-determined request whose
     # `duration` is ignored today (rejected with the proposed consistency test)
@@ -1030,7 +1070,7 @@ def process(ctx, cases):
         if r[0] == 'OK':
             fl = oracle(ctx, c, r[1])
         ofails.append(fl)
-        key = (c['channel'], tuple(sorted(c['sys'].items())), tuple(sorted((k, v) for k, v in c['args'].items())))
+        key = (c['channel'], json.dumps(c['sys'], sort_keys=True), json.dumps(c['args'], sort_keys=True))
         nontrivial = r[0] == 'OK' or r[1] not in PRESENCE_CLASSES
         ctx.evaluated(key, nontrivial=nontrivial)
         ctx.count('kind.' + c['kind'].split('.')[0] + ('.' + c['kind'].split('.')[1] if c['kind'].startswith(('inv', 'thr', 'band')) else ''))
@@ -1041,6 +1081,13 @@ def process(ctx, cases):
         if r[0] == 'OK':
             ctx.count('raster.%gus' % (c['sys']['raster'] * 1e6))
             ctx.count('units.%s|%s' % (c['sys']['grad_unit'], c['sys']['slew_unit']))
+            if c['sys'].get('rise_time') is not None:
+                q = F(c['sys']['rise_time']) / F(c['sys']['raster'])
+                ctx.count('opts.rise_time.' + ('on_raster' if abs(q - round(q)) < Fraction(1, 10 ** 6) else 'off_raster'))
+            if c['sys'].get('gamma') is not None:
+                ctx.count('opts.gamma_given')
+            if c['sys'].get('other'):
+                ctx.count('opts.other_rasters_given')
             if c['args']['max_grad'] is not None or c['args']['max_slew'] is not None:
                 ctx.count('overrides.given')
             if c.get('ramps'):
